@@ -17,6 +17,10 @@ The translation is compositional, statement by statement and expression by expre
   effectful    d[k] | copy.deepcopy(x) | copy.deepcopy(x, memo) |
                loaders.read_neuroml2_file(h, verbose=False, optimized=True) | _deepcopy_into(a, b)
 
+Before that, `normalise` maps equivalent surface shapes to the canonical one (conditional expression = if/else, `if not
+c`/else, `is not False`/else, nested ifs without else = `and`, annotated assignment, single-use pure locals inlined,
+consistently renamed locals, `not (x is None)`, `list()` / `dict()`, any pure way of building a log message).
+
 Local variables are typed by the table `VARS` (a name that is not in it is refused, as is a use at another type).
 Anything else is a GAP: reported, and rendered as `S.unsupported` so that `Props/C17Gen.lean` cannot go through.
 """
@@ -37,6 +41,277 @@ LOG_LEVELS = ("debug", "info", "warning", "error", "critical")
 
 def q(s):
     return '"' + s.replace("\\", "\\\\").replace('"', '\\"') + '"'
+
+
+
+# ---------------------------------------------------------------- normalisation (robustness round)
+# Equivalent surface shapes of one statement are mapped to ONE canonical shape - the one today's source has - before
+# translating, so that behaviour-preserving rewrites leave Gen/FixExternal.lean byte-identical.  Every rule is
+# semantics-preserving for ALL inputs (reason given at the rule); whatever is not recognised is left alone and then
+# refused by the translator as before.
+
+# locals in the order today's source binds them (parameters are interface: never renamed)
+CANON_LOCALS = {
+    "_deepcopy_into": ["memo", "old_parent"],
+    "fix_external_morphs_biophys_in_cell": ["newdoc", "all_cells", "referenced_ids", "cell", "ext_morphs", "ext_biophys",
+                                            "inc", "incdoc", "morph", "biophys", "e"],
+}
+
+
+def _bound_names(fn):
+    """names bound in the function body, in source order of their first binding"""
+    out = []
+
+    class V(ast.NodeVisitor):
+        def visit_Name(self, n):
+            if isinstance(n.ctx, (ast.Store, ast.Del)) and n.id not in out:
+                out.append(n.id)
+
+        def visit_ExceptHandler(self, h):
+            if h.name and h.name not in out:
+                out.append(h.name)
+            self.generic_visit(h)
+
+        def visit_FunctionDef(self, n):      # nested scopes are not looked into (and will be refused)
+            if n.name not in out:
+                out.append(n.name)
+        visit_Lambda = visit_ListComp = visit_DictComp = visit_SetComp = visit_GeneratorExp = lambda self, n: None
+    v = V()
+    for st in fn.body:
+        v.visit(st)
+    return out
+
+
+def _loaded_names(fn):
+    return {n.id for st in fn.body for n in ast.walk(st) if isinstance(n, ast.Name) and isinstance(n.ctx, ast.Load)}
+
+
+def _is_pure_shape(e):
+    """syntactically free of calls (except id / 3-argument getattr) and subscripts: evaluating it has no side effect on
+    generateDS objects and cannot raise for bound names"""
+    for n in ast.walk(e):
+        if isinstance(n, (ast.Subscript, ast.Await, ast.Yield, ast.YieldFrom, ast.NamedExpr, ast.Lambda,
+                          ast.ListComp, ast.DictComp, ast.SetComp, ast.GeneratorExp)):
+            return False
+        if isinstance(n, ast.Call) and not (isinstance(n.func, ast.Name) and n.func.id in ("id", "getattr")):
+            return False
+    return True
+
+
+class _Subst(ast.NodeTransformer):
+    def __init__(self, name, expr):
+        self.name, self.expr = name, expr
+
+    def visit_Name(self, n):
+        if n.id == self.name and isinstance(n.ctx, ast.Load):
+            return ast.copy_location(ast.parse(ast.unparse(self.expr), mode="eval").body, n)
+        return n
+
+
+def _inline_single_use(body, fn_all_loads_count, params, notes):
+    """`t = <pure expr>` immediately followed by a statement that reads `t` exactly once (and nothing else in the
+    function reads or re-binds it): the expression is put where `t` is read.  Sound when the value is computed from the
+    same state: the expression is call/subscript free, and in the next statement no call or subscript is evaluated before
+    the place of use (an argument is evaluated before the call it belongs to), so state and exception order are unchanged."""
+    out = []
+    k = 0
+    while k < len(body):
+        st = body[k]
+        # `t = <any expr>` directly followed by `return t` (t read nowhere else)  ==  `return <expr>`: nothing happens between
+        if (isinstance(st, ast.Assign) and len(st.targets) == 1 and isinstance(st.targets[0], ast.Name)
+                and st.targets[0].id not in VARS and st.targets[0].id not in params and k + 1 < len(body)
+                and isinstance(body[k + 1], ast.Return) and isinstance(body[k + 1].value, ast.Name)
+                and body[k + 1].value.id == st.targets[0].id and fn_all_loads_count.get(st.targets[0].id, 0) == 1):
+            notes.append("`%s = e; return %s` -> `return e`" % (st.targets[0].id, st.targets[0].id))
+            out.append(ast.copy_location(ast.Return(value=st.value), st))
+            k += 2
+            continue
+        if (isinstance(st, ast.Assign) and len(st.targets) == 1 and isinstance(st.targets[0], ast.Name)
+                and st.targets[0].id not in VARS and st.targets[0].id not in params and k + 1 < len(body)
+                and _is_pure_shape(st.value) and fn_all_loads_count.get(st.targets[0].id, 0) == 1):
+            t = st.targets[0].id
+            nxt = body[k + 1]
+            uses = [n for n in ast.walk(nxt) if isinstance(n, ast.Name) and n.id == t and isinstance(n.ctx, ast.Load)]
+            header_only = True
+            if isinstance(nxt, (ast.For, ast.If, ast.While, ast.Try, ast.With)):
+                hdr = nxt.iter if isinstance(nxt, ast.For) else (nxt.test if isinstance(nxt, (ast.If, ast.While)) else None)
+                header_only = hdr is not None and len([n for n in ast.walk(hdr) if isinstance(n, ast.Name) and n.id == t]) == 1 \
+                    and not isinstance(nxt, ast.While)
+            if len(uses) == 1 and header_only:
+                u = uses[0]
+                scope = nxt.iter if isinstance(nxt, ast.For) else (nxt.test if isinstance(nxt, ast.If) else nxt)
+                early = False
+                for n in ast.walk(scope):
+                    if isinstance(n, (ast.Call, ast.Subscript)) and not (
+                            isinstance(n, ast.Call) and isinstance(n.func, ast.Name) and n.func.id in ("id", "getattr")):
+                        contains = any(m is u for m in ast.walk(n))
+                        before = (n.end_lineno, n.end_col_offset) <= (u.lineno, u.col_offset)
+                        if before and not contains:
+                            early = True
+                if not early:
+                    notes.append("inlined single-use local `%s`" % t)
+                    out.append(ast.fix_missing_locations(_Subst(t, st.value).visit(nxt)))
+                    k += 2
+                    continue
+        out.append(st)
+        k += 1
+    return out
+
+
+class _Shapes(ast.NodeTransformer):
+    """statement-level equivalences"""
+
+    def __init__(self, notes):
+        self.notes = notes
+
+    def _block(self, stmts):
+        res = []
+        for st in stmts:
+            r = self.visit(st)
+            res.extend(r if isinstance(r, list) else [r])
+        return res
+
+    def visit_AnnAssign(self, st):
+        # `x: T = e` is `x = e` (annotations of locals are not evaluated... they ARE for simple names? no: for a local
+        # simple name the annotation is not evaluated at all, PEP 526)
+        if st.value is not None and st.simple and isinstance(st.target, ast.Name):
+            self.notes.append("annotated assignment")
+            return self.visit(ast.copy_location(ast.Assign(targets=[st.target], value=st.value), st))
+        return st
+
+    def visit_Assign(self, st):
+        # `x = A if c else B`  ==  `if c: x = A` / `else: x = B`: c is evaluated first, then exactly one of A, B, then the
+        # target is bound; for `o.f = …` / `d[k] = …` the target expression is evaluated after the value in both forms
+        if isinstance(st.value, ast.IfExp) and len(st.targets) == 1:
+            self.notes.append("conditional expression -> if/else")
+            v = st.value
+            mk = lambda val: ast.copy_location(ast.Assign(targets=[st.targets[0]], value=val), st)
+            return self.visit(ast.copy_location(ast.If(test=v.test, body=[mk(v.body)], orelse=[mk(v.orelse)]), st))
+        return st
+
+    def visit_Return(self, st):
+        if isinstance(st.value, ast.IfExp):
+            self.notes.append("return of a conditional expression -> if/else")
+            v = st.value
+            mk = lambda val: ast.copy_location(ast.Return(value=val), st)
+            return self.visit(ast.copy_location(ast.If(test=v.test, body=[mk(v.body)], orelse=[mk(v.orelse)]), st))
+        return st
+
+    def visit_If(self, st):
+        st.body = self._block(st.body)
+        st.orelse = self._block(st.orelse)
+        # `if not c: X else: Y`  ==  `if c: Y else: X` (the test is evaluated once either way; `not` only negates its truth)
+        if isinstance(st.test, ast.UnaryOp) and isinstance(st.test.op, ast.Not) and st.orelse \
+                and not (isinstance(st.test.operand, ast.Compare) and len(st.test.operand.ops) == 1
+                         and isinstance(st.test.operand.ops[0], (ast.Is, ast.IsNot))
+                         and isinstance(st.test.operand.comparators[0], ast.Constant)
+                         and st.test.operand.comparators[0].value is None):
+            self.notes.append("if not c / else -> branches swapped")
+            st.test, st.body, st.orelse = st.test.operand, st.orelse, st.body
+        # `x is not False` == `not (x is False)`: with an else branch, swap
+        if isinstance(st.test, ast.Compare) and len(st.test.ops) == 1 and isinstance(st.test.ops[0], ast.IsNot) \
+                and isinstance(st.test.comparators[0], ast.Constant) and st.test.comparators[0].value is False and st.orelse:
+            self.notes.append("`is not False` / else -> branches swapped")
+            st.test = ast.copy_location(ast.Compare(left=st.test.left, ops=[ast.Is()], comparators=st.test.comparators), st.test)
+            st.body, st.orelse = st.orelse, st.body
+        # `if a: if b: X` (no else anywhere, nothing else in the outer body)  ==  `if a and b: X`
+        if not st.orelse and len(st.body) == 1 and isinstance(st.body[0], ast.If) and not st.body[0].orelse:
+            self.notes.append("nested if without else -> and")
+            inner = st.body[0]
+            lhs = st.test.values if isinstance(st.test, ast.BoolOp) and isinstance(st.test.op, ast.And) else [st.test]
+            rhs = inner.test.values if isinstance(inner.test, ast.BoolOp) and isinstance(inner.test.op, ast.And) else [inner.test]
+            st.test = ast.copy_location(ast.BoolOp(op=ast.And(), values=lhs + rhs), st.test)
+            st.body = inner.body
+        return st
+
+    def visit_For(self, st):
+        st.body = self._block(st.body)
+        st.orelse = self._block(st.orelse)
+        return st
+
+    def visit_Try(self, st):
+        st.body = self._block(st.body)
+        for h in st.handlers:
+            h.body = self._block(h.body)
+        st.orelse = self._block(st.orelse)
+        st.finalbody = self._block(st.finalbody)
+        return st
+
+    def visit_FunctionDef(self, fn):
+        fn.body = self._block(fn.body)
+        return fn
+
+
+class _Rename(ast.NodeTransformer):
+    def __init__(self, m):
+        self.m = m
+
+    def visit_Name(self, n):
+        if n.id in self.m:
+            n.id = self.m[n.id]
+        return n
+
+    def visit_ExceptHandler(self, h):
+        if h.name in self.m:
+            h.name = self.m[h.name]
+        self.generic_visit(h)
+        return h
+
+
+def normalise(fn):
+    """returns (normalised copy of the function node, notes, gaps)"""
+    fn = ast.parse(ast.unparse(fn)).body[0]            # private copy, positions of the unparsed text
+    notes, gaps = [], []
+    params = [a.arg for a in fn.args.posonlyargs + fn.args.args]
+    # 1. shapes
+    fn = ast.fix_missing_locations(_Shapes(notes).visit(fn))
+    fn = ast.parse(ast.unparse(fn)).body[0]
+    # 2. single-use locals that today's source does not have
+    counts = {}
+    for st in fn.body:
+        for n in ast.walk(st):
+            if isinstance(n, ast.Name) and isinstance(n.ctx, ast.Load):
+                counts[n.id] = counts.get(n.id, 0) + 1
+    stores = {}
+    for st in fn.body:
+        for n in ast.walk(st):
+            if isinstance(n, ast.Name) and isinstance(n.ctx, ast.Store):
+                stores[n.id] = stores.get(n.id, 0) + 1
+    counts = {k: (v if stores.get(k, 0) == 1 else 99) for k, v in counts.items()}      # bound once only
+
+    def rec(body):
+        body = _inline_single_use(body, counts, params, notes)
+        for st in body:
+            for fld in ("body", "orelse", "finalbody"):
+                if isinstance(getattr(st, fld, None), list) and not isinstance(st, ast.FunctionDef):
+                    setattr(st, fld, rec(getattr(st, fld)))
+            for h in getattr(st, "handlers", []):
+                h.body = rec(h.body)
+        return body
+    fn.body = rec(fn.body)
+    fn = ast.parse(ast.unparse(fn)).body[0]
+    # 3. alpha renaming: a local that today's source does not have takes the place of a canonical local that this source
+    #    does not bind, in order of first binding.  Renaming a local consistently is behaviour-preserving unless the new or
+    #    old name is also read as a global/builtin inside the function - then it is refused.
+    canon = CANON_LOCALS.get(fn.name, [])
+    bound = [b for b in _bound_names(fn) if b not in params]
+    unknown = [b for b in bound if b not in canon]
+    missing = [c for c in canon if c not in bound]
+    if unknown:
+        free = _loaded_names(fn) - set(bound) - set(params)
+        if len(unknown) == len(missing) and not (set(unknown) & free) and not (set(missing) & free):
+            # match by the position in the canonical binding order: the i-th unknown name (by first binding) stands for
+            # the i-th missing canonical one only if that keeps the binding order of all locals canonical
+            m = dict(zip(unknown, missing))
+            renamed = [m.get(b, b) for b in bound]
+            if renamed == [c for c in canon if c in renamed]:
+                fn = _Rename(m).visit(fn)
+                notes.append("renamed locals: %s" % ", ".join("%s->%s" % kv for kv in m.items()))
+            else:
+                gaps.append("%s: locals %s cannot be matched with %s by binding order" % (fn.name, unknown, missing))
+        else:
+            gaps.append("%s: unknown local variable(s) %s (canonical ones not bound here: %s)" % (fn.name, unknown, missing))
+    return ast.fix_missing_locations(fn), notes, gaps
 
 
 class Tr:
@@ -89,6 +364,16 @@ class Tr:
             if isinstance(op, ast.In):
                 l, r = self.pure(e.left, "Val"), self.pure(rhs, "List")
                 return None if l is None or r is None else ("(P.inList %s %s)" % (l[0], r[0]), "Bool")
+        if isinstance(e, ast.UnaryOp) and isinstance(e.op, ast.Not) and isinstance(e.operand, ast.Compare) \
+                and len(e.operand.ops) == 1 and isinstance(e.operand.ops[0], (ast.Is, ast.IsNot)) \
+                and isinstance(e.operand.comparators[0], ast.Constant) and e.operand.comparators[0].value is None:
+            # `not (x is None)` == `x is not None`, `not (x is not None)` == `x is None` (identity tests give a bool)
+            l = self.pure(e.operand.left, "Val")
+            return None if l is None else ("(P.%s %s)" % ("isNotNone" if isinstance(e.operand.ops[0], ast.Is) else "isNone", l[0]), "Bool")
+        if isinstance(e, ast.Call) and isinstance(e.func, ast.Name) and e.func.id in ("list", "dict") \
+                and not e.args and not e.keywords and e.func.id not in VARS:
+            # `list()` == `[]`, `dict()` == `{}` (the builtins; a local of that name would have been refused)
+            return ("P.emptyList", "List") if e.func.id == "list" else ("P.emptyDict", "Dict")
         if isinstance(e, ast.BinOp) and isinstance(e.op, ast.Add):
             l, r = self.pure(e.left, "Val"), self.pure(e.right, "Val")        # two list OBJECTS: a new Python list
             return None if l is None or r is None else ("(P.concatItems %s %s)" % (l[0], r[0]), "List")
@@ -112,6 +397,9 @@ class Tr:
         return None
 
     def is_effectful(self, e):
+        if isinstance(e, ast.Call) and isinstance(e.func, ast.Name) and e.func.id in ("list", "dict") \
+                and not e.args and not e.keywords:
+            return False                                   # `list()` / `dict()`: see _pure
         return isinstance(e, (ast.Subscript,)) or (isinstance(e, ast.Call) and not (
             isinstance(e.func, ast.Name) and e.func.id in ("id", "getattr")))
 
@@ -195,16 +483,21 @@ class Tr:
                 v = self.pure(c.args[0], "Val")
                 return "S.unsupported" if v is None else "S.append V.%s %s" % (c.func.value.id, v[0])
             if isinstance(c.func.value, ast.Name) and c.func.value.id == "logger" and c.func.attr in LOG_LEVELS \
-                    and len(c.args) == 1 and not c.keywords:
-                a = c.args[0]
-                ok = isinstance(a, ast.Constant) and isinstance(a.value, str)
-                if isinstance(a, ast.JoinedStr):
-                    ok = True
-                    for part in a.values:
-                        if isinstance(part, ast.FormattedValue):
-                            if part.format_spec is not None or self._pure(part.value) is None:
-                                ok = False
-                if ok:
+                    and len(c.args) >= 1 and not c.keywords:
+                # the text of a log message is not behaviour; what matters is that building it is pure: an f-string with
+                # pure {...} parts, a constant, `"...%s..." % pure` / `% (pure, ...)`, or lazy `logger.x("...%s", pure, ...)`
+                def text_ok(a):
+                    if isinstance(a, ast.Constant) and isinstance(a.value, str):
+                        return True
+                    if isinstance(a, ast.JoinedStr):
+                        return all(not isinstance(part, ast.FormattedValue)
+                                   or (part.format_spec is None and self._pure(part.value) is not None) for part in a.values)
+                    if isinstance(a, ast.BinOp) and isinstance(a.op, ast.Mod) and isinstance(a.left, ast.Constant) \
+                            and isinstance(a.left.value, str):
+                        args = a.right.elts if isinstance(a.right, ast.Tuple) else [a.right]
+                        return all(self._pure(x) is not None for x in args)
+                    return False
+                if text_ok(c.args[0]) and all(self._pure(x) is not None for x in c.args[1:]):
                     return "S.log"
                 return self.unsupported(st, "logger call whose argument is not a text with pure {...} parts")
         if isinstance(st, ast.If):
@@ -269,9 +562,13 @@ open NmlVerif.FixIR NmlVerif.PyHeap NmlVerif.FixExternalH
 FOOTER = "\nend NmlVerif.Gen.FixExternal\n"
 
 
+NOTES = []          # what the normaliser did in the last run (reported by the harness in the evidence)
+
+
 def translate_repo(repo):
     """returns (lean_text, gaps)"""
     gaps = []
+    del NOTES[:]
     path = os.path.join(repo, "neuroml", "utils.py")
     with open(path, encoding="utf-8") as fh:
         tree = ast.parse(fh.read())
@@ -291,7 +588,10 @@ def translate_repo(repo):
             chunks.append("/-- `%s` was not found -/\ndef %s%s : Stmt := S.unsupported\n" % (key, nm, binder))
             continue
         tr = Tr("utils.py: %s" % key)
-        params, defaults, body = tr.function(nodes[0])
+        node, notes, ngaps = normalise(nodes[0])
+        gaps += ["utils.py: " + g for g in ngaps]
+        NOTES.extend("%s: %s" % (key, n) for n in notes)
+        params, defaults, body = tr.function(node)
         gaps += tr.gaps
         chunks.append("/-- parameters of `%s` -/\ndef %sParams : List String := [%s]\n" % (
             key, nm, ", ".join(q(p) for p in params)))
@@ -328,4 +628,6 @@ if __name__ == "__main__":
     gs = regenerate(repo, out)
     for g in gs:
         print("GAP:", g)
+    for n_ in NOTES:
+        print("NORMALISED:", n_)
     print("wrote", out, "gaps:", len(gs))
